@@ -30,7 +30,8 @@ CONSTANTS MaxIn,      \* messages the client may stream
           MaxOut,     \* messages the handler may stream
           Kinds,      \* subset of the kinds above
           Outcomes,   \* subset of {"ok", "app", "panic"}
-          EarlyEnd    \* FALSE; TRUE lets the caller see the end of a stream nobody ended (must break the refinement)
+          EarlyEnd,   \* FALSE; TRUE lets the caller see the end of a stream nobody ended (must break the refinement)
+          WithDrop    \* scripts may lose the connection at any point of the call
 
 VARIABLES kind, outcome,
           begun,      \* the client has issued the call
@@ -40,9 +41,11 @@ VARIABLES kind, outcome,
           hret,       \* "none" | "ok" | "app" | "panic": the handler's outcome once it returned
           hret2,      \* "sub": the inner method's outcome
           c2s, s2c,   \* [sent, got, endSent, endSeen]
+          dropped,    \* the connection was lost during the call
+          hAtDrop,    \* what the handler had returned when it was lost
           script
 
-vars == <<kind, outcome, begun, creturned, started, started2, hret, hret2, c2s, s2c, script>>
+vars == <<kind, outcome, begun, creturned, started, started2, hret, hret2, c2s, s2c, dropped, hAtDrop, script>>
 
 NoStream == [sent |-> 0, got |-> 0, endSent |-> FALSE, endSeen |-> FALSE]
 HasIn == kind \in {"in", "inout"}
@@ -53,11 +56,11 @@ Streaming == kind \in {"in", "out", "inout"}
 Init == /\ kind \in Kinds /\ outcome \in Outcomes
         /\ (kind = "oneway" => outcome = "ok")          \* nothing of a oneway handler is visible to the caller
         /\ begun = FALSE /\ creturned = FALSE /\ started = FALSE /\ started2 = FALSE
-        /\ hret = "none" /\ hret2 = "none" /\ c2s = NoStream /\ s2c = NoStream /\ script = <<>>
+        /\ hret = "none" /\ hret2 = "none" /\ c2s = NoStream /\ s2c = NoStream /\ dropped = FALSE /\ hAtDrop = "none" /\ script = <<>>
 
 Step(who, op, n, expect) ==
     /\ script' = Append(script, [who |-> who, op |-> op, n |-> n, expect |-> expect])
-    /\ UNCHANGED <<kind, outcome>>
+    /\ UNCHANGED <<kind, outcome, dropped, hAtDrop>>
 
 \* ---------------------------------------------------------------- client
 \* the call is issued: a blocking call goes on in its own goroutine, a streaming call returns its channel at once
@@ -67,26 +70,26 @@ CCall ==
     /\ Step("c", "call", 0, "ok")
 
 CSend ==
-    /\ begun /\ HasIn /\ ~c2s.endSent /\ hret = "none" /\ ~creturned /\ c2s.sent < MaxIn
+    /\ begun /\ ~dropped /\ HasIn /\ ~c2s.endSent /\ hret = "none" /\ ~creturned /\ c2s.sent < MaxIn
     /\ c2s' = [c2s EXCEPT !.sent = @ + 1]
     /\ UNCHANGED <<begun, creturned, started, started2, hret, hret2, s2c>>
     /\ Step("c", "send", c2s.sent + 1, "ok")
 
 CSendEnd ==
-    /\ begun /\ HasIn /\ ~c2s.endSent /\ hret = "none" /\ ~creturned
+    /\ begun /\ ~dropped /\ HasIn /\ ~c2s.endSent /\ hret = "none" /\ ~creturned
     /\ c2s' = [c2s EXCEPT !.endSent = TRUE]
     /\ UNCHANGED <<begun, creturned, started, started2, hret, hret2, s2c>>
     /\ Step("c", "sendend", 0, "ok")
 
 CRecv ==
-    /\ begun /\ HasOut /\ ~creturned /\ s2c.got < s2c.sent
+    /\ begun /\ ~dropped /\ HasOut /\ ~creturned /\ s2c.got < s2c.sent
     /\ s2c' = [s2c EXCEPT !.got = @ + 1]
     /\ UNCHANGED <<begun, creturned, started, started2, hret, hret2, c2s>>
     /\ Step("c", "recv", s2c.got + 1, "msg")
 
 \* the end of the handler's stream: it ended it, or it returned (the response closes the stream)
 CRecvEnd ==
-    /\ begun /\ HasOut /\ ~creturned /\ ~s2c.endSeen /\ s2c.got = s2c.sent /\ (EarlyEnd \/ s2c.endSent \/ hret # "none")
+    /\ begun /\ ~dropped /\ HasOut /\ ~creturned /\ ~s2c.endSeen /\ s2c.got = s2c.sent /\ (EarlyEnd \/ s2c.endSent \/ hret # "none")
     /\ s2c' = [s2c EXCEPT !.endSeen = TRUE]
     /\ UNCHANGED <<begun, creturned, started, started2, hret, hret2, c2s>>
     /\ Step("c", "recvend", 0, "end")
@@ -94,23 +97,35 @@ CRecvEnd ==
 \* the caller takes the outcome: the blocking call returns / Response of a streaming call (messages of the handler's
 \* stream which were not received are skipped).  Only once the handler has returned, so that nothing waits.
 \* A oneway call returns once the request is written, whatever the handler does.
+\* After the connection was lost the caller gets its outcome at once: a non-OK status, or - when the handler had returned
+\* before the loss, so that its response may have arrived - that very outcome ("maybe-...").
 CReturn ==
-    /\ begun /\ ~creturned /\ (kind = "oneway" \/ hret # "none")
+    /\ begun /\ ~creturned /\ (kind = "oneway" \/ hret # "none" \/ dropped)
     /\ creturned' = TRUE
     /\ UNCHANGED <<begun, started, started2, hret, hret2, c2s, s2c>>
-    /\ Step("c", IF Blocking THEN "ret" ELSE "response", 0, IF kind = "oneway" THEN "ok" ELSE hret)
+    /\ Step("c", IF Blocking THEN "ret" ELSE "response", 0,
+            IF dropped THEN (IF hAtDrop \in {"ok", "app"} THEN "maybe-" \o hAtDrop ELSE "fail")
+            ELSE IF kind = "oneway" THEN "ok" ELSE hret)
+
+\* the connection is lost (a proxy between the two ends cuts it); streams stop, the handler can still return
+Drop ==
+    /\ WithDrop /\ begun /\ ~dropped /\ ~creturned /\ kind # "oneway"
+    /\ Blocking => started        \* a blocking call runs in its own goroutine: once its handler was entered the connection exists
+    /\ dropped' = TRUE /\ hAtDrop' = hret
+    /\ script' = Append(script, [who |-> "x", op |-> "drop", n |-> 0, expect |-> "ok"])
+    /\ UNCHANGED <<kind, outcome, begun, creturned, started, started2, hret, hret2, c2s, s2c>>
 
 \* ---------------------------------------------------------------- handler
 \* the handler is entered with the request (observed, not commanded)
 SStart ==
-    /\ begun /\ ~started /\ started' = TRUE
+    /\ begun /\ ~dropped /\ ~started /\ started' = TRUE
     /\ UNCHANGED <<begun, creturned, started2, hret, hret2, c2s, s2c>>
     /\ Step("s", "start", 0, "req")
 
 \* a streaming handler asks for the request message; it is valid until the handler's first Receive (rpc.ServerChannel),
 \* so the script asks before receiving anything
 SRequest ==
-    /\ started /\ Streaming /\ hret = "none" /\ ~\E k \in DOMAIN script : script[k].op = "request"
+    /\ started /\ ~dropped /\ Streaming /\ hret = "none" /\ ~\E k \in DOMAIN script : script[k].op = "request"
     /\ c2s.got = 0 /\ ~c2s.endSeen
     /\ UNCHANGED <<begun, creturned, started, started2, hret, hret2, c2s, s2c>>
     /\ Step("s", "request", 0, "req")
@@ -119,7 +134,7 @@ SRequest ==
 \* (generated wrappers), which the script does not judge.  What it is there for: nothing else changes, in this call or in
 \* any later one (the handler's channel state is pooled).
 SRequestLate ==
-    /\ started /\ Streaming /\ hret = "none" /\ ~\E k \in DOMAIN script : script[k].op \in {"request", "request-late"}
+    /\ started /\ ~dropped /\ Streaming /\ hret = "none" /\ ~\E k \in DOMAIN script : script[k].op \in {"request", "request-late"}
     /\ (c2s.got > 0 \/ c2s.endSeen)
     /\ UNCHANGED <<begun, creturned, started, started2, hret, hret2, c2s, s2c>>
     /\ Step("s", "request-late", 0, "any")
@@ -135,25 +150,25 @@ SReturn2 ==
     /\ Step("s", "return2", 0, outcome)
 
 SRecv ==
-    /\ started /\ HasIn /\ hret = "none" /\ c2s.got < c2s.sent
+    /\ started /\ ~dropped /\ HasIn /\ hret = "none" /\ c2s.got < c2s.sent
     /\ c2s' = [c2s EXCEPT !.got = @ + 1]
     /\ UNCHANGED <<begun, creturned, started, started2, hret, hret2, s2c>>
     /\ Step("s", "recv", c2s.got + 1, "msg")
 
 SRecvEnd ==
-    /\ started /\ HasIn /\ hret = "none" /\ ~c2s.endSeen /\ c2s.endSent /\ c2s.got = c2s.sent
+    /\ started /\ ~dropped /\ HasIn /\ hret = "none" /\ ~c2s.endSeen /\ c2s.endSent /\ c2s.got = c2s.sent
     /\ c2s' = [c2s EXCEPT !.endSeen = TRUE]
     /\ UNCHANGED <<begun, creturned, started, started2, hret, hret2, s2c>>
     /\ Step("s", "recvend", 0, "end")
 
 SSend ==
-    /\ started /\ HasOut /\ hret = "none" /\ ~s2c.endSent /\ s2c.sent < MaxOut
+    /\ started /\ ~dropped /\ HasOut /\ hret = "none" /\ ~s2c.endSent /\ s2c.sent < MaxOut
     /\ s2c' = [s2c EXCEPT !.sent = @ + 1]
     /\ UNCHANGED <<begun, creturned, started, started2, hret, hret2, c2s>>
     /\ Step("s", "send", s2c.sent + 1, "ok")
 
 SSendEnd ==
-    /\ started /\ HasOut /\ hret = "none" /\ ~s2c.endSent
+    /\ started /\ ~dropped /\ HasOut /\ hret = "none" /\ ~s2c.endSent
     /\ s2c' = [s2c EXCEPT !.endSent = TRUE]
     /\ UNCHANGED <<begun, creturned, started, started2, hret, hret2, c2s>>
     /\ Step("s", "sendend", 0, "ok")
@@ -166,17 +181,17 @@ SReturn ==
     /\ UNCHANGED <<begun, creturned, started, started2, hret2, c2s, s2c>>
     /\ Step("s", "return", 0, IF kind = "sub" THEN hret2 ELSE outcome)
 
-Next == CCall \/ CSend \/ CSendEnd \/ CRecv \/ CRecvEnd \/ CReturn
+Next == CCall \/ CSend \/ CSendEnd \/ CRecv \/ CRecvEnd \/ CReturn \/ Drop
         \/ SStart \/ SRequest \/ SRequestLate \/ SNext \/ SReturn2 \/ SRecv \/ SRecvEnd \/ SSend \/ SSendEnd \/ SReturn
 
 Spec == Init /\ [][Next]_vars
 
-Done == hret # "none" /\ creturned
+Done == creturned /\ (hret # "none" \/ (dropped /\ ~started))
 
 \* ---------------------------------------------------------------- properties
 \* the handler runs at most once and only for an issued call; the caller's outcome is the handler's
 HandlerAfterCall == started => begun
-OutcomeIsHandlers == (creturned /\ kind # "oneway") => hret # "none"
+OutcomeIsHandlers == (creturned /\ kind # "oneway" /\ ~dropped) => hret # "none"
 StreamPrefix == c2s.got <= c2s.sent /\ s2c.got <= s2c.sent
 EndAfterAll == (c2s.endSeen => c2s.got = c2s.sent) /\ (s2c.endSeen => s2c.got = s2c.sent)
 \* every script can be completed (no interleaving paints the controller into a corner)
@@ -191,21 +206,24 @@ ROut(o) == CASE o = "none" -> [code |-> "none", msg |-> "", res |-> 0]
 \* what the caller holds: the handler's result or status; a panic surfaces as some non-OK status; a oneway call sees OK
 RCend == IF ~creturned THEN ROut("none")
          ELSE IF kind = "oneway" THEN [code |-> "ok", msg |-> "", res |-> 0]
+         ELSE IF dropped THEN [code |-> "error", msg |-> "", res |-> 0]
          ELSE IF hret = "panic" THEN [code |-> "error", msg |-> "", res |-> 0] ELSE ROut(hret)
 RStream(st) == [sent |-> [k \in 1..st.sent |-> k], got |-> st.got, endSent |-> st.endSent, endSeen |-> st.endSeen]
 R == INSTANCE Rpc WITH Calls <- {1}, kind <- [i \in {1} |-> RKind], runs <- [i \in {1} |-> IF started THEN 1 ELSE 0],
                        hret <- [i \in {1} |-> ROut(hret)], cend <- [i \in {1} |-> RCend],
-                       c2s <- [i \in {1} |-> RStream(c2s)], s2c <- [i \in {1} |-> RStream(s2c)], failed <- FALSE
+                       c2s <- [i \in {1} |-> RStream(c2s)], s2c <- [i \in {1} |-> RStream(s2c)], failed <- dropped
 ROuts == {ROut(o) : o \in {"ok", "app", "panic"}} \cup {[code |-> "error", msg |-> "", res |-> 0], [code |-> "ok", msg |-> "", res |-> 0]}
 RNext == \/ \E k \in {"unary", "oneway", "stream"} : R!CallBegin(1, k)
-         \/ R!HandlerStart(1)
+         \/ R!HandlerStart(1) \/ R!Fail
          \/ \E o \in ROuts : R!HandlerReturn(1, o) \/ R!CallEnd(1, o)
          \/ \E d \in {"c2s", "s2c"} : \/ \E n \in 1..(MaxIn + MaxOut) : R!Send(d, 1, n) \/ R!Recv(d, 1, n)
                                        \/ R!SendEnd(d, 1)
                                        \/ \E sd \in BOOLEAN : sd = (IF d = "s2c" THEN hret # "none" ELSE creturned) /\ R!RecvEnd(d, 1, sd)
-RefinesRpc == [][RNext]_<<RKind, started, hret, RCend, c2s, s2c>>
+RefinesRpc == [][RNext]_<<RKind, started, hret, RCend, c2s, s2c, dropped>>
 RpcInvariants == R!HandlerAtMostOnce /\ R!OkOnlyIfServerSentOk /\ R!StreamPrefix
 
 \* a script is emitted when it is complete; incomplete prefixes are not executed on their own
 Emit == Done => PrintT(ToJson([kind |-> kind, outcome |-> outcome, script |-> script]))
+\* only the scripts in which the connection is lost (the others come from the configurations without WithDrop)
+EmitDrop == (Done /\ dropped) => PrintT(ToJson([kind |-> kind, outcome |-> outcome, script |-> script]))
 =============================================================================
